@@ -13,4 +13,5 @@ CONSTANTS
   BugCache = FALSE
   BugAccessorMutates = FALSE
   BugJsonAlias = TRUE
+  BugEntryPointWritesTables = FALSE
 CHECK_DEADLOCK FALSE
